@@ -41,6 +41,20 @@ theorem star_mem_iff {n : ℕ} {a : A} : star a ∈ I (A := A) n ↔ a ∈ I (A 
   · exact I_star
 
 
+theorem P_congr (p : Part) {a b : A} (h : a = b) : P p a = P p b := by rw [h]
+theorem tl_congr {a b : A} (h : a = b) : tl a = tl b := by rw [h]
+
+/-- membership in `I 1` of sums / differences / scalar multiples / adjoints of members (order-insensitive) -/
+macro "mem_one" : tactic =>
+  `(tactic| repeat' (first
+      | assumption
+      | apply Submodule.add_mem
+      | apply Submodule.sub_mem
+      | apply Submodule.neg_mem
+      | apply Submodule.smul_mem
+      | apply Filtered.I_star
+      | apply Submodule.zero_mem))
+
 /-! ### the equations of `main` -/
 
 section Main
@@ -131,13 +145,19 @@ theorem B_mem : e.B ∈ I (A := A) 1 := by
   · rw [e.eq_B_ed]; exact Ptl_mem _ _
 
 theorem Up_eq : e.Up = e.W + e.V := by
-  rw [e.eq_Up, tl_of_mem (Submodule.add_mem _ (W_mem e) (V_mem e))]
+  have hW := W_mem e
+  have hV := V_mem e
+  have h := e.eq_Up
+  rw [tl_of_mem (by mem_one)] at h
+  exact h.trans (by first | rfl | abel)
 
 theorem Up_mem : e.Up ∈ I (A := A) 1 := by
   rw [Up_eq]; exact Submodule.add_mem _ (W_mem e) (V_mem e)
 
+theorem Upd_eq : e.Upd = e.W - e.V := e.eq_Upd.trans (by first | rfl | abel)
+
 theorem Upd_mem : e.Upd ∈ I (A := A) 1 := by
-  rw [e.eq_Upd]; exact Submodule.sub_mem _ (W_mem e) (V_mem e)
+  rw [Upd_eq]; exact Submodule.sub_mem _ (W_mem e) (V_mem e)
 
 theorem X_mem : e.X ∈ I (A := A) 1 := by
   rw [e.eq_X]; exact tl_mem _
@@ -151,18 +171,44 @@ theorem Y_star : star e.Yadj = e.Yadj := by
   · simp only [sw_up]; rw [e.eq_Yadj_lo, star_star]
   · simp only [sw_lo]; rw [e.eq_Yadj_lo]
   · simp only [sw_kc]; rw [e.eq_Yadj_kc]; simp
-  · simp only [sw_kn]; rw [e.eq_Yadj_kn, P_star, ← tl_star, star_smulq, star_add, star_star]
-    simp only [sw_kn]; rw [add_comm]
-  · simp only [sw_ed]; rw [e.eq_Yadj_ed, P_star, ← tl_star, star_smulq, star_add, star_star]
-    simp only [sw_ed]; rw [add_comm]
+  · simp only [sw_kn]; rw [e.eq_Yadj_kn, P_star, ← tl_star]
+    refine P_congr _ (tl_congr ?_)
+    simp only [star_add, star_smulq, star_star]; first | rfl | module
+  · simp only [sw_ed]; rw [e.eq_Yadj_ed, P_star, ← tl_star]
+    refine P_congr _ (tl_congr ?_)
+    simp only [star_add, star_smulq, star_star]; first | rfl | module
 
 /-- right-hand side of the Sylvester equation for `V` -/
-abbrev Zr (e : MainEqs A u) : A := (star e.Yadj - e.V_x_Hp_diag) - star e.V_x_Hp_diag
+def Zr (e : MainEqs A u) : A := (star e.Yadj - e.V_x_Hp_diag) - star e.V_x_Hp_diag
 
 theorem Zr_star : star (Zr e) = Zr e := by
   unfold Zr
   rw [star_sub, star_sub, star_star, star_star, Y_star e]
   abel
+
+theorem VH_eq : e.V_x_Hp_diag = e.V * e.Hp_diag := e.prod_V_x_Hp_diag
+
+theorem mul_mem_one {a b : A} (ha : a ∈ I (A := A) 1) (hb : b ∈ I (A := A) 1) : a * b ∈ I (A := A) 1 :=
+  mem_I_of_le (by norm_num) (I_mul ha hb)
+
+theorem VH_mem : e.V_x_Hp_diag ∈ I (A := A) 1 := by rw [VH_eq]; exact mul_mem_one (V_mem e) (Hd_mem e)
+
+theorem Zr_mem : Zr e ∈ I (A := A) 1 := by
+  unfold Zr
+  exact Submodule.sub_mem _ (Submodule.sub_mem _ (I_star (Y_mem e)) (VH_mem e)) (I_star (VH_mem e))
+
+theorem V_part (p : Part) {F : A} (h : P p e.V = P p (tl F)) (hF : F = -(u.Sy (Zr e))) :
+    P p e.V = - P p (u.Sy (Zr e)) := by
+  have hs := u.Sy_mem (Zr_mem e)
+  rw [h, hF, tl_of_mem (by mem_one), map_neg]
+
+theorem Zr_gen {z : A} (h : z = Zr e) : -(u.Sy z) = -(u.Sy (Zr e)) := by rw [h]
+
+theorem V_up : P up e.V = - P up (u.Sy (Zr e)) :=
+  V_part e up e.eq_V_up (Zr_gen e (by unfold Zr; first | rfl | abel))
+
+theorem V_ed : P ed e.V = - P ed (u.Sy (Zr e)) :=
+  V_part e ed e.eq_V_ed (Zr_gen e (by unfold Zr; first | rfl | abel))
 
 theorem V_star : star e.V = - e.V := by
   apply parts_ext; intro p
@@ -173,16 +219,12 @@ theorem V_star : star e.V = - e.V := by
   · simp only [sw_kc]; rw [e.eq_V_kc]; simp
   · simp only [sw_kn]; rw [e.eq_V_kn]; simp
   · simp only [sw_ed]
-    rw [e.eq_V_ed, P_star, ← tl_star]
-    simp only [sw_ed, star_neg, map_neg, neg_neg]
-    rw [← tl_P, ← tl_P, u.Sy_ed_star, Zr_star]
-    simp only [map_neg, neg_neg]
-
+    rw [V_ed, star_neg, P_star, sw_ed, u.Sy_ed_star, Zr_star]
 
 /-! ### T-adj: the series `U'†` is the adjoint of `U'` (contraction on the pairing defect) -/
 
 theorem delta_eq : e.Upd - star e.Up = e.W - star e.W := by
-  rw [e.eq_Upd, Up_eq, star_add, V_star]; abel
+  rw [Upd_eq, Up_eq, star_add, V_star]; abel
 
 theorem W_sub_star : e.W - star e.W
     = P kc (tl (((1:ℚ)/(-2)) • (e.Upd_x_Up - star e.Upd_x_Up)))
@@ -192,12 +234,13 @@ theorem W_sub_star : e.W - star e.W
     rw [map_sub, P_of_star]; simp only [sw_up]; rw [e.eq_W_lo, star_star, sub_self]
   have hlo : P lo (e.W - star e.W) = 0 := by
     rw [map_sub, P_of_star]; simp only [sw_lo]; rw [e.eq_W_lo, sub_self]
-  have hk : ∀ p : Part, p.sw = p → P p e.W = P p (tl (((1:ℚ)/(-2)) • e.Upd_x_Up)) →
+  have hk : ∀ (p : Part) (F : A), p.sw = p → P p e.W = P p (tl F) → F = ((1:ℚ)/(-2)) • e.Upd_x_Up →
       P p (e.W - star e.W) = P p (tl (((1:ℚ)/(-2)) • (e.Upd_x_Up - star e.Upd_x_Up))) := by
-    intro p hp h
-    rw [map_sub, P_of_star, hp, h, P_star, hp, ← tl_star, star_smulq, ← map_sub, ← map_sub, ← smul_sub]
+    intro p F hp h hF
+    rw [map_sub, P_of_star, hp, h, hF, P_star, hp, ← tl_star, star_smulq, ← map_sub, ← map_sub, ← smul_sub]
   have h := P_sum (e.W - star e.W)
-  rw [hup, hlo, hk kc rfl e.eq_W_kc, hk kn rfl e.eq_W_kn, hk ed rfl e.eq_W_ed, zero_add, zero_add] at h
+  rw [hup, hlo, hk kc _ rfl e.eq_W_kc (by first | rfl | module), hk kn _ rfl e.eq_W_kn (by first | rfl | module),
+    hk ed _ rfl e.eq_W_ed (by first | rfl | module), zero_add, zero_add] at h
   exact h.symm
 
 theorem delta_mem_one : e.Upd - star e.Up ∈ I (A := A) 1 :=
@@ -258,26 +301,25 @@ theorem Pr_star : star e.Upd_x_Up = e.Upd_x_Up := by
   rw [Pr_eq, star_mul, Up_star, Upd_star]
 
 theorem W_eq : e.W = ((1:ℚ)/(-2)) • e.Upd_x_Up := by
-  have hm : ((1:ℚ)/(-2)) • e.Upd_x_Up ∈ I (A := A) 1 := Submodule.smul_mem _ _ (Pr_mem e)
+  have hP := Pr_mem e
+  have hk : ∀ (p : Part) (F : A), P p e.W = P p (tl F) → F = ((1:ℚ)/(-2)) • e.Upd_x_Up →
+      P p e.W = P p (((1:ℚ)/(-2)) • e.Upd_x_Up) := by
+    intro p F h hF
+    rw [h, hF, tl_of_mem (by mem_one)]
   apply parts_ext; intro p
   cases p
-  · rw [e.eq_W_up, tl_of_mem hm]
-  · rw [e.eq_W_lo, e.eq_W_up, tl_of_mem hm, P_star, star_smulq, Pr_star]; rfl
-  · rw [e.eq_W_kc, tl_of_mem hm]
-  · rw [e.eq_W_kn, tl_of_mem hm]
-  · rw [e.eq_W_ed, tl_of_mem hm]
+  · exact hk up _ e.eq_W_up (by first | rfl | module)
+  · rw [e.eq_W_lo, hk up _ e.eq_W_up (by first | rfl | module), P_star, star_smulq, Pr_star]; rfl
+  · exact hk kc _ e.eq_W_kc (by first | rfl | module)
+  · exact hk kn _ e.eq_W_kn (by first | rfl | module)
+  · exact hk ed _ e.eq_W_ed (by first | rfl | module)
 
 /-- left unitarity in expanded form -/
 theorem unit_left : e.Upd + e.Up + e.Upd * e.Up = 0 := by
   have hW := W_eq e
   rw [Pr_eq] at hW
-  rw [e.eq_Upd, Up_eq]
-  have : (e.W - e.V) + (e.W + e.V) = (2:ℚ) • e.W := by module
-  calc e.W - e.V + (e.W + e.V) + (e.W - e.V) * (e.W + e.V)
-      = (2:ℚ) • e.W + (e.W - e.V) * (e.W + e.V) := by rw [this]
-    _ = 0 := by
-        rw [← e.eq_Upd, ← Up_eq]
-        rw [hW]; module
+  have h2 : e.Upd + e.Up = (2:ℚ) • e.W := by rw [Upd_eq, Up_eq]; module
+  rw [h2, hW]; module
 
 theorem unit_right : e.Up + e.Upd + e.Up * e.Upd = 0 := by
   apply eq_zero_of_contraction
@@ -321,8 +363,6 @@ theorem V_rem : e.V = P up e.V + P lo e.V + P ed e.V := by
 theorem Ho_kc : P kc e.Hp_offdiag = 0 := by rw [e.eq_Hp_offdiag_kc]; simp
 theorem Ho_kn : P kn e.Hp_offdiag = 0 := by rw [e.eq_Hp_offdiag_kn]; simp
 
-theorem VH_eq : e.V_x_Hp_diag = e.V * e.Hp_diag := e.prod_V_x_Hp_diag
-
 theorem VH_star : star e.V_x_Hp_diag = - (e.Hp_diag * e.V) := by
   rw [VH_eq, star_mul, V_star, Hd_star]; noncomm_ring
 
@@ -332,16 +372,17 @@ theorem VH_kc : P kc e.V_x_Hp_diag = 0 := by
 theorem VHs_kc : P kc (star e.V_x_Hp_diag) = 0 := by
   rw [VH_star, map_neg, V_rem e, Hd_eq, comm_right, neg_zero]
 
-theorem mul_mem_one {a b : A} (ha : a ∈ I (A := A) 1) (hb : b ∈ I (A := A) 1) : a * b ∈ I (A := A) 1 :=
-  mem_I_of_le (by norm_num) (I_mul ha hb)
-
-theorem VH_mem : e.V_x_Hp_diag ∈ I (A := A) 1 := by rw [VH_eq]; exact mul_mem_one (V_mem e) (Hd_mem e)
 theorem C_mem : e.Upd_x_B ∈ I (A := A) 1 := by rw [e.prod_Upd_x_B]; exact mul_mem_one (Upd_mem e) (B_mem e)
 theorem Ac_mem : e.Hp_offdiag_x_Up ∈ I (A := A) 1 := by
   rw [e.prod_Hp_offdiag_x_Up]; exact mul_mem_one (Ho_mem e) (Up_mem e)
 
 theorem X_eq : e.X = e.B + e.Hp_offdiag + e.Hp_offdiag_x_Up := by
-  rw [e.eq_X, tl_of_mem (Submodule.add_mem _ (Submodule.add_mem _ (B_mem e) (Ho_mem e)) (Ac_mem e))]
+  have h1 := B_mem e
+  have h2 := Ho_mem e
+  have h3 := Ac_mem e
+  have h := e.eq_X
+  rw [tl_of_mem (by mem_one)] at h
+  exact h.trans (by first | rfl | abel)
 
 /-- kept part of `B` (formula of the non-commuting blocks; valid for all kept parts) -/
 def Gk (e : MainEqs A u) : A :=
@@ -354,24 +395,41 @@ theorem Gk_mem : Gk e ∈ I (A := A) 1 := by
   exact Submodule.add_mem _ (Submodule.add_mem _ (Submodule.sub_mem _ (C_mem e) (I_star (C_mem e))) (Ac_mem e)) (I_star (Ac_mem e))
 
 theorem B_kn : P kn e.B = P kn (Gk e) := by
-  have h := Gk_mem e
+  have h1 := C_mem e
+  have h2 := Ac_mem e
+  have h3 := VH_mem e
   rw [e.eq_B_kn]
-  unfold Gk at h ⊢
-  rw [tl_of_mem h]
+  refine P_congr _ ((tl_of_mem (by mem_one)).trans ?_)
+  unfold Gk; first | rfl | module
 
 theorem B_kc : P kc e.B = P kc (Gk e) := by
-  have hm : ((1:ℚ)/(-2)) • (((e.Upd_x_B - star e.Upd_x_B) + e.Hp_offdiag_x_Up) + star e.Hp_offdiag_x_Up) ∈ I (A := A) 1 := by
-    refine Submodule.smul_mem _ _ ?_
-    exact Submodule.add_mem _ (Submodule.add_mem _ (Submodule.sub_mem _ (C_mem e) (I_star (C_mem e))) (Ac_mem e)) (I_star (Ac_mem e))
-  rw [e.eq_B_kc, tl_of_mem hm]
-  unfold Gk
-  rw [map_add (P kc) _ (e.V_x_Hp_diag + star e.V_x_Hp_diag), map_add (P kc) e.V_x_Hp_diag, VH_kc, VHs_kc, add_zero, add_zero]
+  have h1 := C_mem e
+  have h2 := Ac_mem e
+  have h3 := VH_mem e
+  have hz : P kc (e.V_x_Hp_diag + star e.V_x_Hp_diag) = 0 := by rw [map_add, VH_kc, VHs_kc, add_zero]
+  rw [e.eq_B_kc, tl_of_mem (by mem_one)]
+  have : Gk e = (Gk e - (e.V_x_Hp_diag + star e.V_x_Hp_diag)) + (e.V_x_Hp_diag + star e.V_x_Hp_diag) := by abel
+  rw [this, map_add (P kc) _ (e.V_x_Hp_diag + star e.V_x_Hp_diag), hz, add_zero]
+  refine P_congr _ ?_
+  unfold Gk; first | rfl | module
 
 theorem negC_mem : -e.Upd_x_B ∈ I (A := A) 1 := Submodule.neg_mem _ (C_mem e)
 
-theorem B_up : P up e.B = - P up e.Upd_x_B := by rw [e.eq_B_up, tl_of_mem (negC_mem e), map_neg]
-theorem B_lo : P lo e.B = - P lo e.Upd_x_B := by rw [e.eq_B_lo, tl_of_mem (negC_mem e), map_neg]
-theorem B_ed : P ed e.B = - P ed e.Upd_x_B := by rw [e.eq_B_ed, tl_of_mem (negC_mem e), map_neg]
+theorem B_up : P up e.B = - P up e.Upd_x_B := by
+  have h1 := C_mem e
+  rw [e.eq_B_up, ← map_neg]
+  refine P_congr _ ((tl_of_mem (by mem_one)).trans ?_)
+  first | rfl | abel
+theorem B_lo : P lo e.B = - P lo e.Upd_x_B := by
+  have h1 := C_mem e
+  rw [e.eq_B_lo, ← map_neg]
+  refine P_congr _ ((tl_of_mem (by mem_one)).trans ?_)
+  first | rfl | abel
+theorem B_ed : P ed e.B = - P ed e.Upd_x_B := by
+  have h1 := C_mem e
+  rw [e.eq_B_ed, ← map_neg]
+  refine P_congr _ ((tl_of_mem (by mem_one)).trans ?_)
+  first | rfl | abel
 
 /-- `B + U'† B` is the kept part of a self-adjoint element -/
 theorem BC_eq : e.B + e.Upd_x_B = P kc (Gk e + e.Upd_x_B) + P kn (Gk e + e.Upd_x_B) := by
@@ -404,16 +462,6 @@ theorem Kc_star : star (Kc e) = Kc e := by
 theorem Kc_eq : Kc e = (e.V * u.H0 - u.H0 * e.V) + (e.V_x_Hp_diag + star e.V_x_Hp_diag) := by
   unfold Kc HS; rw [VH_star, VH_eq]; noncomm_ring
 
-theorem Zr_mem : Zr e ∈ I (A := A) 1 := by
-  unfold Zr
-  exact Submodule.sub_mem _ (Submodule.sub_mem _ (I_star (Y_mem e)) (VH_mem e)) (I_star (VH_mem e))
-
-theorem V_up : P up e.V = - P up (u.Sy (Zr e)) := by
-  rw [e.eq_V_up, tl_of_mem (Submodule.neg_mem _ (u.Sy_mem (Zr_mem e))), map_neg]
-
-theorem V_ed : P ed e.V = - P ed (u.Sy (Zr e)) := by
-  rw [e.eq_V_ed, tl_of_mem (Submodule.neg_mem _ (u.Sy_mem (Zr_mem e))), map_neg]
-
 theorem Zr_eq : Zr e = e.Yadj - (e.V_x_Hp_diag + star e.V_x_Hp_diag) := by
   unfold Zr; rw [Y_star]; abel
 
@@ -439,11 +487,14 @@ theorem Kc_sel (p : Part) (hV : P p e.V = 0) : P p (Kc e) = P p (e.V_x_Hp_diag +
 theorem XX_mem : ((1:ℚ)/2) • (star e.X + e.X) ∈ I (A := A) 1 :=
   Submodule.smul_mem _ _ (Submodule.add_mem _ (I_star (X_mem e)) (X_mem e))
 
-theorem XX_up : P up (e.X + star e.X) = (2:ℚ) • P up e.Yadj := by
-  rw [e.eq_Yadj_up, tl_of_mem (XX_mem e), map_smul, smul_smul, add_comm]; norm_num
+theorem Y_part (p : Part) {F : A} (h : P p e.Yadj = P p (tl F)) (hF : F = ((1:ℚ)/2) • (e.X + star e.X)) :
+    P p (e.X + star e.X) = (2:ℚ) • P p e.Yadj := by
+  have hX := X_mem e
+  rw [h, hF, tl_of_mem (by mem_one), map_smul, smul_smul]; norm_num
 
-theorem XX_ed : P ed (e.X + star e.X) = (2:ℚ) • P ed e.Yadj := by
-  rw [e.eq_Yadj_ed, tl_of_mem (XX_mem e), map_smul, smul_smul, add_comm]; norm_num
+theorem XX_up : P up (e.X + star e.X) = (2:ℚ) • P up e.Yadj := Y_part e up e.eq_Yadj_up (by first | rfl | module)
+
+theorem XX_ed : P ed (e.X + star e.X) = (2:ℚ) • P ed e.Yadj := Y_part e ed e.eq_Yadj_ed (by first | rfl | module)
 
 theorem Gk_add_star : Gk e + star (Gk e)
     = - (e.Hp_offdiag_x_Up + star e.Hp_offdiag_x_Up) + (2:ℚ) • (e.V_x_Hp_diag + star e.V_x_Hp_diag) := by
@@ -484,7 +535,7 @@ def Dx (e : MainEqs A u) : A := e.X - Tc e
 def Bt (e : MainEqs A u) : A := Tc e - e.Hp_offdiag - e.Hp_offdiag_x_Up
 
 theorem Up_sub_Upd : e.Up - e.Upd = (2:ℚ) • e.V := by
-  rw [Up_eq, e.eq_Upd]; module
+  rw [Up_eq, Upd_eq]; module
 
 theorem Tc_add_star : Tc e + star (Tc e) = (2:ℚ) • Kc e := by
   unfold Tc Kc
@@ -599,7 +650,10 @@ theorem kept_identity : e.Hp_diag - (Gk e + e.Upd_x_B) - Fh e = e.Yadj - (e.V_x_
 
 theorem Y_kn : P kn e.Yadj = P kn (e.V_x_Hp_diag + star e.V_x_Hp_diag) := by
   have h := XX_sel e kn rfl (B_kn e) (Ho_kn e)
-  rw [e.eq_Yadj_kn, tl_of_mem (XX_mem e), map_smul, add_comm, h, smul_smul]; norm_num
+  have h2 := Y_part e kn e.eq_Yadj_kn (by first | rfl | module)
+  rw [h] at h2
+  have : P kn e.Yadj = ((1:ℚ)/2) • ((2:ℚ) • P kn e.Yadj) := by rw [smul_smul]; norm_num
+  rw [this, ← h2, smul_smul]; norm_num
 
 theorem Y_kc : P kc e.Yadj = P kc (e.V_x_Hp_diag + star e.V_x_Hp_diag) := by
   rw [e.eq_Yadj_kc, map_add, VH_kc, VHs_kc]; simp
@@ -629,8 +683,12 @@ theorem main_similarity : (1 + e.Upd) * e.H * (1 + e.Up) = e.H_tilde := by
   cases p
   · exact hrem up (Hd_up e) (B_up e) u.H0_up e.eq_H_tilde_up
   · exact hrem lo (Hd_lo e) (B_lo e) u.H0_lo e.eq_H_tilde_lo
-  · exact hsel kc (B_kc e) (Y_kc e) (by rw [e.eq_H_tilde_kc]; rfl)
-  · exact hsel kn (B_kn e) (Y_kn e) (by rw [e.eq_H_tilde_kn]; rfl)
+  · exact hsel kc (B_kc e) (Y_kc e) (by
+      rw [e.eq_H_tilde_kc]
+      exact P_congr _ (congrArg (fun z => (e.H - tl e.H) + z) (tl_congr (by unfold Fh; first | rfl | module))))
+  · exact hsel kn (B_kn e) (Y_kn e) (by
+      rw [e.eq_H_tilde_kn]
+      exact P_congr _ (congrArg (fun z => (e.H - tl e.H) + z) (tl_congr (by unfold Fh; first | rfl | module))))
   · exact hrem ed (Hd_ed e) (B_ed e) u.H0_ed e.eq_H_tilde_ed
 
 theorem U_eq : e.U = 1 + e.Up := by rw [e.eq_U, tl_of_mem (Up_mem e)]
